@@ -17,6 +17,14 @@ CLAIMED = {
     note=TRUST + 'Not covered: iconv/ICU fallback path of encoding::valid / validate_or_filter (not compiled in this build), std::map dispatch by charset name, form.cpp call sites. '
          'validate_or_filter_utf8 is decided by a bounded stand-in in the quick tier (its unbounded proof is attempted in the thorough tier only).',
     design='4 (C14)', technique='cbmc code contracts (dfcc) + loop contracts on extracted C; ghost-index tiling argument'),
+ 'C15': dict(
+    text='All three util::escape output paths, urlencode_impl and urldecode are under contract with loop contracts (unbounded): the output is the concatenation, over the input bytes, '
+         'of the specified replacement (five entities / unreserved-or-%XX / token decoding), total length exact, streambuf failure reported and nothing written after it; '
+         'urldecode(urlencode(c))==c for every byte on the real bodies; base64url block codec, alphabet table, size functions and their inverse are proved for all inputs; '
+         'the two-pointer base64 loops are a bounded stand-in (<=12 bytes).',
+    note=TRUST + 'Outputs (std::string, streambuf, output iterators) are a scalar ghost sink; sscanf(%x) is a stub with the C99 contract. Not covered: template filters and form widgets (call-site fact), '
+         'the std::string wrappers of b64url, the string-level concatenation step of the URL round trip (meta-argument over the segment contracts). Bounded: b64url::encode/decode pointer loops up to 12 input bytes.',
+    design='4 (C15)', technique='cbmc code contracts (dfcc) + loop contracts with a scalar ghost sink; bounded unwinding for the base64 pointer loops'),
  'C19': dict(
     text='The chunk reader/writer of cppcms::archive (next_chunk_size, read_chunk, read_chunk_as_string, write_chunk, eof) and the POD-vector load body are under contract: '
          'for every archive content, length and cursor a read either throws or stays inside the archive bytes and returns exactly the payload; '
